@@ -104,6 +104,31 @@ CHECKS = {
 NOT_YET = {
 }
 
+# checks built by sub-agents: texts are taken from the "Proposed MANIFEST texts" section of notes/<ID>.md
+AGENT_NOTES = {"C16": "C16.md", "C20": "C20.md"}
+
+
+def grab(path):
+    import re
+    s = open(path).read()
+    i = s.lower().find("proposed manifest")
+    sec = s[i:]
+    j = sec.find("\n## ", 10)
+    if j > 0:
+        sec = sec[:j]
+    out = {}
+    for key, pat in (("technique", r"technique\**\s*:?\**\s*"), ("text", r"level(?: \(model_checking\))? text\**\s*:?\**\s*"),
+                     ("note", r"level note\**\s*:?\**\s*")):
+        m = re.search(r"\*\s*\**" + pat + r"[:]?\s*(.+?)(?=\n\*\s|\Z)", sec, re.S | re.I)
+        if m:
+            out[key] = " ".join(m.group(1).split()).strip().strip('`"\u201c\u201d')
+    return out
+
+
+for _pid, _f in AGENT_NOTES.items():
+    _g = grab(os.path.join(VERIF, "notes", _f))
+    CHECKS[_pid] = (_g["technique"], _g["text"], _g["note"], "DESIGN.md section 5 %s, notes/%s" % (_pid, _f))
+
 
 def main():
     props = [json.loads(l) for l in open(os.path.join(VERIF, "properties.jsonl"))]
